@@ -57,6 +57,12 @@ def judge(ctx, r):
                 ctx.fail(f"{r.desc} step {i} {s['op']}: block type {typ} read through the open object differs from decoding the bytes on disk", rep,
                          ident="object != disk content")
                 return
+        mb = (s["model"] or {}).get("blocks")
+        if mb is not None:
+            for typ, via in s["extra"].get("via_object", {}).items():
+                if isinstance(via, list) and mb.get(typ) != via:
+                    ctx.diff("tdf.getall", f"{r.desc} step {i} {s['op']}: block type {typ} read through the real object differs from the model's get_block", rep)
+                    break
         if s["model"] is not None and not s["model"]["sync"]:
             ctx.diff("tdf.sync", f"{r.desc} step {i}: model leaves unflushed bytes", rep)
     # after close
@@ -68,13 +74,13 @@ def judge(ctx, r):
 def run(ctx):
     import sessions.c03 as c03
     import itertools
-    runs = itertools.chain(C.explore(ctx, ctx.n(400, 6000), 12, c03.STYLES, p_invalid=0.15, observe=observe),
-                           C.explore_equal_sizes(ctx, depth=3, tables=(3,), observe=observe))
+    runs = itertools.chain(C.explore(ctx, ctx.n(400, 6000), 12, c03.STYLES, p_invalid=0.15, observe=observe, getall=True),
+                           C.explore_equal_sizes(ctx, depth=3, tables=(3,), observe=observe, getall=True))
     for r in runs:
         ctx.case((r.desc, str(C.jsonable_hist(r.hist))), nontrivial=C.nontrivial_history(r),
                  sample=dict(start=r.desc, ops=[s["op"][0] + ":" + s["real"] for s in r.steps]), tags=C.history_tags(r))
         C.correspondence(ctx, r)
-        judge(ctx, r)
+        C.judge_and_shrink(ctx, r, judge, observe=observe, getall=True)
 
 
 def replay(path):
